@@ -146,6 +146,37 @@ def run_shard(spec):
             res["nontrivial"].append([arr, H, flow, ph["borehole"]["diameter"], ph["grout"]["conductivity"]])
         for x in v:
             res["viol"].append({**x, "case": case})
+        # the same pipe and borehole again in the same process with another flow, fluid, roughness or double-U connection (a flow sweep
+        # over one catalogue pipe): every conversion must stand on its own inputs
+        if arr != "SINGLEUTUBE":
+            for _sib in range(2):
+                ph2 = copy.deepcopy(ph)
+                what = str(g.choice(["flow", "fluid", "roughness", "connection"]))
+                flow2 = flow
+                if what == "flow":
+                    flow2 = float(round(min(2.0, max(0.02, flow * 10 ** g.uniform(-1, 1))), 4))
+                elif what == "fluid":
+                    ph2["fluid"] = GP.draw_fluid(g)
+                elif what == "roughness":
+                    ph2["pipe"]["roughness"] = ph["pipe"]["roughness"] * float(g.choice([0.1, 10.0, 100.0]))
+                elif arr.startswith("DOUBLEUTUBE"):
+                    ph2["pipe"]["arrangement"] = "DOUBLEUTUBESERIES" if arr == "DOUBLEUTUBEPARALLEL" else "DOUBLEUTUBEPARALLEL"
+                else:
+                    flow2 = float(round(min(2.0, max(0.02, flow * 3.0)), 4))
+                case2 = {"phys": ph2, "H": H, "flow": flow2, "sibling_of_previous_case_changed": what}
+                try:
+                    bhe2 = GP.make_bhe(ph2, H, flow2)
+                    eq2 = bhe2.to_single()
+                except Exception:  # noqa: BLE001 - an unusable variation is not this lane's subject
+                    res["skipped"] += 1
+                    continue
+                v2, info2 = judge(bhe2, eq2, ph2)
+                res["sibling_conversions"] = res.get("sibling_conversions", 0) + 1
+                for kk, vv in info2.items():
+                    if kk.endswith("rel_err"):
+                        res["worst"][kk] = max(res["worst"].get(kk, 0.0), vv)
+                for x in v2:
+                    res["viol"].append({**x, "case": case2})
         if len(res["samples"]) < 1 and arr != "SINGLEUTUBE":
             res["samples"].append({"case": case, "info": info, "eq_r_in": eq.pipe.r_in, "eq_r_out": eq.pipe.r_out, "eq_pipe_k": eq.pipe.k})
     return res
@@ -158,7 +189,8 @@ def check(tier, seed):
     rep = Report(PROP)
     rep.rule = (
         "case = exchanger (double-U parallel/series, coaxial, some single-U) with geometry that fits, r_b 55-110 mm, grout k 0.6-2.8, "
-        "five fluids, flow 0.02-2 L/s (laminar to turbulent), converted by the real to_single(); non-trivial = non-single-U case; "
+        "five fluids, flow 0.02-2 L/s (laminar to turbulent), converted by the real to_single(); each followed by two conversions of the same pipe and "
+        "borehole with another flow, fluid, roughness or double-U connection in the same process; non-trivial = non-single-U case; "
         "distinct by inputs."
     )
     regimes = {"laminar": 0, "turbulent": 0}
@@ -168,6 +200,8 @@ def check(tier, seed):
             continue
         rep.evaluations += r["cases"]
         rep.count("skipped_unusable_exchanger", r["skipped"])
+        rep.count("sibling_conversions_same_pipe_other_flow_fluid_roughness_connection", r.get("sibling_conversions", 0))
+        rep.evaluations += r.get("sibling_conversions", 0)
         for k2, v2 in r["worst"].items():
             rep.worst("worst_" + k2, v2)
         for k2, v2 in r["arr"].items():
